@@ -568,6 +568,66 @@ def r7_interval(ctx):
     has_deadline = any(x[0] == 'call' and x[1] == SLEEP + '::deadline' for x in walk(t))
     has_missed = any(x[0] == 'call' and (x[1].endswith('MissedTickBehavior::next_timeout') or x[1] == NOW) for x in walk(t))
     ctx.check(has_period and has_deadline and has_missed, 're-arm-value', 'the next tick is the old deadline + period, or the missed-tick policy result', s.where(), txt[:300])
+    # per path: an on-time tick is re-armed one period after its OWN deadline (never after `now`: consuming a tick a little late must not
+    # shift the following ticks); a missed tick goes through the configured policy with (deadline, now, period)
+    NT = 'des::time::interval::MissedTickBehavior::next_timeout'
+    is_deadline = lambda x: peel(x)[0] == 'call' and peel(x)[1] == SLEEP + '::deadline'
+    is_period = lambda x: peel(x)[0] == 'field' and peel(x)[2] == 'period'
+    is_now = lambda x: peel(x)[0] == 'call' and peel(x)[1] == NOW
+    n_on = n_late = 0
+    for path, outcome, decs in fn_paths(ctx, f):
+        if outcome != 'return':
+            continue
+        effs = path_effects(f, path)
+        rs = [e for e in effs if e[0] == 'c' and e[1].name == SLEEP + '::reset']
+        if not rs:
+            continue
+        late = None
+        for _, a in path_atoms(f, path, decs):
+            if a and a[0] == 'cmp' and is_now(a[2]) and any(is_deadline(x) or (x[0] == 'call' and x[1] == SLEEP + '::deadline') for x in walk(a[3])):
+                late = a[1] in ('gt', 'ge')
+        site = rs[0][1]
+        pidx = max(k for k, bb in enumerate(path) if bb == site.b)
+        v = peel(f.expr_operand_on_path(site.args[1], path, pidx, 'T'))
+        strat = None
+        args_ok = False
+        if v[0] == 'call' and v[1] == NT and len(v[2]) == 4:
+            nts = [c for c in f.calls() if c.name == NT and c.b in path]
+            if nts:
+                k2 = max(k for k, bb in enumerate(path) if bb == nts[-1].b)
+                strat = peel(f.expr_operand_on_path(nts[-1].args[0], path, k2, 'T'))
+            args_ok = is_deadline(v[2][1]) and is_now(v[2][2]) and is_period(v[2][3])
+        plain = v[0] == 'call' and v[1].endswith('::add') and len(v[2]) == 2 and is_deadline(v[2][0]) and is_period(v[2][1])
+        if late is False:
+            n_on += 1
+            burst = strat is not None and strat[0] == 'agg' and str(strat[1]).endswith('MissedTickBehavior::Burst') and args_ok
+            ctx.check(plain or burst, 'on-time-rearm', 'a tick that was not missed is re-armed at its own deadline + period (independent of when it was consumed)',
+                      f.where_path(path), show(v)[:200])
+        elif late is True:
+            n_late += 1
+            pol = strat is not None and strat[0] == 'field' and args_ok
+            ctx.check(pol, 'missed-rearm', 'a missed tick is re-armed by the configured MissedTickBehavior from (deadline, now, period)', f.where_path(path), show(v)[:200])
+    ctx.floor('on-time re-arm paths of poll_tick', n_on, 1)
+    ctx.floor('missed-tick re-arm paths of poll_tick', n_late, 1)
+    fn_ = ctx.P.fns.get(NT)
+    if fn_ is not None:
+        # the policy table: Burst -> timeout + period ; Delay -> now + period ; Skip -> now + period - ((now - timeout) mod period)
+        for path, outcome, decs in fn_paths(ctx, fn_):
+            if outcome != 'return':
+                continue
+            var = next((a[2] for _, a in path_atoms(fn_, path, decs) if a and a[0] == 'is' and isinstance(a[2], str) and a[2] in ('Burst', 'Delay', 'Skip')), None)
+            r = path_ret_resolved(fn_, path)
+            r = peel(r) if r is not None else ('unknown',)
+            base_is = lambda x, name: peel(x)[0] == 'arg' and peel(x)[2] == name
+            if var in ('Burst', 'Delay'):
+                want = 'timeout' if var == 'Burst' else 'now'
+                okp = r[0] == 'call' and r[1].endswith('::add') and len(r[2]) == 2 and base_is(r[2][0], want) and base_is(r[2][1], 'period')
+                ctx.check(okp, 'policy-%s' % var, 'MissedTickBehavior::%s re-arms at %s + period' % (var, want), fn_.where_path(path), show(r)[:160])
+            elif var == 'Skip':
+                okp = r[0] == 'call' and r[1].endswith('::sub') and len(r[2]) == 2 and peel(r[2][0])[0] == 'call' and peel(r[2][0])[1].endswith('::add') and \
+                    base_is(peel(r[2][0])[2][0], 'now') and base_is(peel(r[2][0])[2][1], 'period') and \
+                    any(x[0] == 'bin' and x[1] == 'Rem' for x in walk(r[2][1])) and any(x[0] == 'arg' and x[2] == 'timeout' for x in walk(r[2][1]))
+                ctx.check(okp, 'policy-Skip', 'MissedTickBehavior::Skip re-arms at the next multiple of the period after now, counted from the missed deadline', fn_.where_path(path), show(r)[:200])
     # returns the old deadline
     ok = False
     for b, rt in ret_trees(f):
